@@ -86,6 +86,16 @@ pub fn run(ctx: &Ctx, rec: &mut Recorder) -> Result<(), String> {
                 true
             });
             cfgs.truncate(cfg_sample);
+        } else if ctx.quick() && prog["pages"].as_array().map(|a| a.len()).unwrap_or(0) >= 100 {
+            // a long document under the whole lattice is slow to observe: four configurations with
+            // object streams (several object streams each) and four without
+            let mut with_os: Vec<usize> = cfgs.iter().copied().filter(|i| all_cfgs[*i].1.use_object_streams).collect();
+            let mut without: Vec<usize> = cfgs.iter().copied().filter(|i| !all_cfgs[*i].1.use_object_streams).collect();
+            r.shuffle(&mut with_os);
+            r.shuffle(&mut without);
+            with_os.truncate(4);
+            without.truncate(4);
+            cfgs.retain(|i| with_os.contains(i) || without.contains(i));
         } else if ctx.quick() && pno >= 4 {
             // Files with object streams carry a million-entry cross-reference stream (the writer
             // numbers object streams from 1 000 000), which costs about a second per open: in the
